@@ -46,6 +46,21 @@ def d1(row, s):
     return X.hodograph_exact(row, s)
 
 
+def zero_edge_pi_turn(nodes):
+    """class of finding F-G (a property of the INPUT): a zero first or last edge of the control polygon (counted as
+    direction (1,0) by arctan2(0,0) = 0) next to an edge pointing exactly in the -x direction: the discrete turning
+    angle is pi at every subdivision level of that end"""
+    e = [(nodes[0][j + 1] - nodes[0][j], nodes[1][j + 1] - nodes[1][j]) for j in range(len(nodes[0]) - 1)]
+    if len(e) < 2:
+        return False
+    for zero, nxt in ((e[0], e[1:]), (e[-1], e[-2::-1])):
+        if zero == (0, 0):
+            nb = next((v for v in nxt if v != (0, 0)), None)
+            if nb is not None and nb[1] == 0 and nb[0] < 0:
+                return True
+    return False
+
+
 def main():
     bezier = C.import_bezier()
     from bezier.hazmat import geometric_intersection as GI
@@ -146,14 +161,20 @@ def main():
             model = (mst, (mval, 0)) if mst == "ok" else (mst, mval)
             # the model runs with fuel 30: the library's recursion limit plays the same role for the non-terminating net
             same, why = PL.same_result(impl, model, tol=Fr(1, 2 ** 26))
-            if not same and not (kind == "large-turning" and st != "ok"):
+            if mst == "err" and mval == "recursion" and kind != "nonterminating":
+                # the exact model ran out of its fuel (30 levels): inconclusive, the binary64 run may leave the exact
+                # recursion after more levels (degenerate nets: zero edges, collinear control points)
+                d = res.dist.setdefault("model_fuel_exhausted", {})
+                d[st] = d.get(st, 0) + 1
+            elif not same and not (kind == "large-turning" and st != "ok"):
                 res.mismatch("self_intersections", rc, str(impl)[:300], str(replies[si])[:300], why)
         if kind == "nonterminating":
             if st == "recursion":
                 res.failure("self-intersections:zero-edge-then-pi-turn", "self_intersections of [(0,0),(0,0),(-1,0)] recurses without bound (RecursionError)", rc)
             continue
         if st == "recursion":
-            res.failure("self-intersections:recursion", "self_intersections did not terminate (degree %d)" % n, rc)
+            res.failure("self-intersections:zero-edge-then-pi-turn" if zero_edge_pi_turn(exact_nodes) else "self-intersections:recursion",
+                        "self_intersections did not terminate (degree %d)" % n, rc)
             continue
         if st == "raised":
             res.failure("self-intersections:raised", "self_intersections raised %s" % out, rc)
